@@ -21,6 +21,9 @@ pub struct C19 {
 	amount_readings: std::collections::BTreeMap<String, String>,
 	queue: Vec<Step>,
 	cancelled_sends_left: u32,
+	/// scripted: a confirmed incoming payment is re-organised away and found reverted
+	/// (an entry that has a confirmation time but is not confirmed), then queried
+	reverts_left: u32,
 }
 
 #[derive(Clone, Copy, PartialEq, Debug)]
@@ -189,7 +192,8 @@ impl C19 {
 		cfg.w_new_invoice += 2;
 		let gen = HistGen::new(cfg, run);
 		let cancelled_sends_left = run.rng.below(3) as u32;
-		C19 { gen, queries: 0, amount_readings: Default::default(), queue: vec![], cancelled_sends_left }
+		let reverts_left = run.rng.below(3) as u32;
+		C19 { gen, queries: 0, amount_readings: Default::default(), queue: vec![], cancelled_sends_left, reverts_left }
 	}
 
 	fn gen_query(run: &mut Run, w: usize) -> Value {
@@ -388,6 +392,28 @@ impl Prop for C19 {
 
 	fn next(&mut self, run: &mut Run) -> Option<Step> {
 		if let Some(s) = self.queue.pop() {
+			if let Op::Custom { name, args } = &s.op {
+				if name == "query_later" {
+					let w = args["w"].as_u64().unwrap_or(0) as usize;
+					if w < run.ex.world.wallets.len() && run.ex.world.is_open(w) {
+						let mut q = Self::gen_query(run, w);
+						// aim at the confirmation time of a reverted entry, if there is one
+						let snap = run.ex.world.snap(w);
+						if let Some(t) = snap.txs.iter().find(|t| t.tx_type == TxLogEntryType::TxReverted && t.confirmation_ts.is_some()) {
+							let c = t.confirmation_ts.unwrap().timestamp_millis();
+							let delta = *run.rng.pick(&[-1i64, 0, 1, 1000, -1000]);
+							if run.rng.chance(1, 2) {
+								q["min_confirmed_ms"] = json!(c + delta);
+							} else {
+								q["max_confirmed_ms"] = json!(c + delta);
+							}
+							run.cov.probe("confirmation_time_bound_aimed_at_a_reverted_entry");
+						}
+						return Some(Step::new(Op::Custom { name: "query".into(), args: json!({"w": w, "q": q}) }));
+					}
+					return self.next(run);
+				}
+			}
 			return Some(s);
 		}
 		// the log should hold the rarer entry kinds too: a send that is reserved and
@@ -404,6 +430,38 @@ impl Prop for C19 {
 				self.queue.push(Step::new(Op::Cancel { w, m: Some(m), id: None }));
 				self.queue.push(Step::new(Op::Lock { w, m }));
 				return Some(Step::new(Op::InitSend { w, args: a }));
+			}
+		}
+		if self.gen.setup_done && self.reverts_left > 0 && run.rng.chance(1, 6) && !run.ex.world.chain.is_down() {
+			let tip = run.ex.world.chain.height();
+			let cands: Vec<(usize, u64)> = run
+				.model
+				.deals
+				.iter()
+				.filter(|d| d.mined.is_some() && d.payee.is_some() && d.payee != d.payer)
+				.map(|d| (d.payee.unwrap(), d.mined.unwrap()))
+				.collect();
+			if !cands.is_empty() {
+				let (w, h) = *run.rng.pick(&cands);
+				let depth = tip + 1 - h;
+				if depth >= 1 && depth <= 6 && depth < tip && run.ex.world.is_open(w) {
+					self.reverts_left -= 1;
+					run.cov.probe("confirmed_payment_reorged_away_then_queried");
+					let mut q = vec![
+						Step::new(Op::Refresh { w }),
+						Step::new(Op::Clock { delta_ms: 1000 * run.rng.range(1, 4000) as i64 }),
+						Step::new(Op::Fork { depth, extra: run.rng.range(1, 2), include: false, readd: run.rng.chance(1, 2) }),
+						Step::new(Op::Scan { w, start: None, del: false }),
+					];
+					for _ in 0..3 {
+						// the query itself is drawn when its turn comes (it anchors on the log
+						// as it is then)
+						q.push(Step::new(Op::Custom { name: "query_later".into(), args: json!({"w": w}) }));
+					}
+					q.reverse();
+					self.queue = q;
+					return self.queue.pop();
+				}
 			}
 		}
 		if self.gen.setup_done && run.ex.world.wallets.len() > 0 && run.rng.chance(1, 2) {
